@@ -373,7 +373,7 @@ pub fn run(ctx: &mut Ctx) {
     }
     for n in [256usize, 65535, 65536, 65537, 70000 - 24] {
         for fill in [0x00u8, 0x1b, 0x55] {
-            runs.push(("payload", n.min(69000), fill));
+            runs.push(("payload", if n > 69000 { 69000 } else { n }, fill));
         }
     }
     for n in [65536usize, 65540, 131072] {
@@ -381,6 +381,7 @@ pub fn run(ctx: &mut Ctx) {
             runs.push(("body", n, fill));
         }
     }
+    runs.push(("payload", (1 << 20) + 4096, 0x37));
     runs.push(("noise", 1 << 20, 0x55));
     runs.push(("noise", 1 << 20, 0x1b));
     if !ctx.quick() {
